@@ -186,3 +186,24 @@ func smCoversRec(f *ssa.Function, seen map[*ssa.Function]bool) bool {
 	}
 	return true
 }
+
+// leftEarly: among the paths of one loop-iteration exploration (started at
+// the loop header, stopped on the back edge and on leaving the loop), those
+// that leave the loop from inside its body - a break, or a return that
+// allowReturn does not accept - rather than from the exhausted header.
+func leftEarly(paths []*Path, l *loopInfo, allowReturn func(p *Path) bool) []*Path {
+	var out []*Path
+	for _, p := range paths {
+		switch p.Term {
+		case "stop":
+			if p.End != l.Header && p.StopFrom != nil && p.StopFrom != l.Header {
+				out = append(out, p)
+			}
+		case "return":
+			if allowReturn == nil || !allowReturn(p) {
+				out = append(out, p)
+			}
+		}
+	}
+	return out
+}
